@@ -314,11 +314,17 @@ def apply_fault(cx: Ctx, fault: Sequence, name: str = "X", hid=None) -> List[str
         for c in cs:
             c.send(_frame(tc, P.MT_CONNECT_V2, P.P_CONNECT_V2.pack(0, 0, 1, 50, 1, b"crowd"), src_mod_id=50) + _frame(tc, P.MT_SUBSCRIBE, P.p_sub(sub), src_mod_id=50))
         w.settle(limit=10 ** 5)
-        for c in cs:
-            c.rst()
-        w.clients["P"].send(P.mkframe(T1, b"crowd", timecode=tc, src_mod_id=21))
-        if w.alive:
-            w.settle(limit=10 ** 5)
+        import contextlib
+        import io
+
+        # (with logging on and the crowd subscribed to the log records, a record about one failed write is itself delivered to the next
+        # dead subscriber: the logging package reports handler errors on stderr - kept out of the check's output)
+        with contextlib.redirect_stderr(io.StringIO()):
+            for c in cs:
+                c.rst()
+            w.clients["P"].send(P.mkframe(T1, b"crowd", timecode=tc, src_mod_id=21))
+            if w.alive:
+                w.settle(limit=10 ** 5)
         return [name]
     if kind == "shared-id-newcomer":
         _, am, how = fault
